@@ -370,6 +370,19 @@ pub fn c01_families(tier: &str) -> Vec<SeqSpec> {
     v.push(trivial_move_family(t, READS));
     v.push(rich_family("F-rich/T300", k3s(), a1(), if t { 6 } else { 4 }, READS));
     v.push(levels_family("F-levels/L", "L", k4(), a1(), if t { 6 } else { 4 }, READS));
+    // seek-triggered compactions, through gets and through iterators (read sampling), of files
+    // whose range covers a key they do not contain
+    v.push(
+        spec(
+            "F-seek/T300",
+            &["T300"],
+            k4(),
+            vec![Op::Put(0, 0), Op::Put(2, 0), Op::Del(0), Op::Batch(vec![(0, true), (2, true)]), Op::Batch(vec![(0, true), (1, true)]), Op::GetMany(3, 128), Op::IterSeekMany(3, 128), Op::Reopen(0)],
+            if t { 6 } else { 4 },
+            READS,
+        )
+        .flush(),
+    );
     v.push(staggered_family("F-staggered/T300", if t { 6 } else { 4 }, READS));
     // from the empty database with tiny level limits: files with distinct keys are moved down level
     // by level without being rewritten (trivial moves), the same file several times within one
@@ -473,6 +486,7 @@ pub fn c07(tier: &str) -> ! {
         Op::Batch(vec![(0, true), (2, true)]),
         Op::Batch(vec![(0, true), (1, true)]),
         Op::GetMany(3, 128),
+        Op::IterSeekMany(3, 128),
         Op::Compact(None, None),
     ];
     fams.push(spec("C07-seek/T300", &["T300"], k4(), a_seek, if t { 7 } else { 5 }, ck).flush());
@@ -595,6 +609,7 @@ pub fn c11_seq_families(tier: &str) -> Vec<SeqSpec> {
         Op::Batch(vec![(0, true), (2, true)]),
         Op::Batch(vec![(0, true), (1, true)]),
         Op::GetMany(3, 128),
+        Op::IterSeekMany(3, 128),
         Op::Compact(None, None),
     ];
     fams.push(spec("C11-seek/T300", &["T300"], k4(), a_seek, if t { 7 } else { 5 }, ck).flush());
